@@ -4,6 +4,7 @@ mod gen;
 mod hooks;
 mod kindv;
 mod macrov;
+mod msgv;
 mod navv;
 mod numgen;
 mod nestv;
@@ -89,6 +90,7 @@ fn main() {
 								Some("kind_ops") => kindv::replay_ops(&mut rep, &rec),
 								Some("kind_iter") => kindv::replay_iter(&mut rep, &rec),
 								Some("access") => kindv::replay_access(&mut rep, &rec),
+								Some("msg") => msgv::replay_msg(&mut rep, &rec),
 								Some(k) => tool_error(&format!("unknown vector kind {k}")),
 								None => (),
 							}
